@@ -332,22 +332,15 @@ theorem remSfs_setAt (gs : List SfGauge) (i : Nat) (g g0 : SfGauge) (h : gs[i]? 
     | zero => simp at h; subst h; simp only [setAt, remSfs]; omega
     | succ i => simp at h; simp only [setAt, remSfs, ih i h]; omega
 
-/-- what one swap-fee trigger does, as cases -/
-theorem sfTrigger_cases (g g' : SfGauge) (d : DistData) (x : Xfer) (sends : List Int) (recv : Int)
-    (h : sfTrigger g d x = .ok (g', sends, recv)) :
-    (∀ r ∈ sends, 0 ≤ r) ∧ 0 ≤ recv ∧ (0 < g.deposit → sumL sends ≤ g.deposit) ∧ (g.deposit ≤ 0 → sends = []) ∧
-    ((g' = g ∧ recv = 0 ∧ (sends = [] ∨ x = .err)) ∨
-     (∃ amt : Nat, x = .ok amt ∧ recv = amt ∧ g'.deposit = g.deposit - sumL sends + amt ∧
-        g'.distributed = g.distributed + sumL sends ∧ g'.triggered = g.triggered + 1)) := by
-  unfold sfTrigger at h
+theorem sfDistribute_cases (g : SfGauge) (d : DistData) (r : Option (SfGauge × List Int)) (h : sfDistribute g d = .ok r) :
+    r = none ∨ ∃ g1 sends, r = some (g1, sends) ∧ (∀ x ∈ sends, 0 ≤ x) ∧ (0 < g.deposit → sumL sends ≤ g.deposit) ∧
+      (g.deposit ≤ 0 → sends = []) ∧ g1.deposit = g.deposit - sumL sends ∧ g1.distributed = g.distributed + sumL sends ∧
+      g1.triggered = g.triggered := by
+  unfold sfDistribute at h
   by_cases hd : g.deposit > 0
   · simp only [hd, if_true] at h
     cases d with
-    | err =>
-      simp only at h
-      injection h with h; injection h with h1 h2; injection h2 with h2 h3
-      subst h1 h2 h3
-      exact ⟨by simp, Int.le_refl 0, by intro _; simp [sumL]; omega, by intro; rfl, Or.inl ⟨rfl, rfl, Or.inl rfl⟩⟩
+    | err => simp only at h; injection h with h; left; exact h.symm
     | ok rs =>
       simp only at h
       by_cases hn : anyNeg rs = true
@@ -355,48 +348,52 @@ theorem sfTrigger_cases (g g' : SfGauge) (d : DistData) (x : Xfer) (sends : List
       · have hn' : anyNeg rs = false := by simpa using hn
         simp only [hn', Bool.false_eq_true, if_false] at h
         by_cases hs : sumL rs > g.deposit
-        · simp only [hs, if_true] at h
-          injection h with h; injection h with h1 h2; injection h2 with h2 h3
-          subst h1 h2 h3
-          exact ⟨by simp, Int.le_refl 0, by intro _; simp [sumL]; omega, by intro; rfl, Or.inl ⟨rfl, rfl, Or.inl rfl⟩⟩
+        · simp only [hs, if_true] at h; injection h with h; left; exact h.symm
         · simp only [hs, if_false] at h
-          have hnn := all_nonneg_of_not_anyNeg rs hn'
-          cases x with
-          | err =>
-            simp only at h
-            injection h with h; injection h with h1 h2; injection h2 with h2 h3
-            subst h1 h2 h3
-            exact ⟨hnn, Int.le_refl 0, by intro _; omega, by intro; omega, Or.inl ⟨rfl, rfl, Or.inr rfl⟩⟩
-          | ok amt =>
-            simp only at h
-            injection h with h; injection h with h1 h2; injection h2 with h2 h3
-            subst h1 h2 h3
-            refine ⟨hnn, Int.natCast_nonneg _, by intro _; omega, by intro; omega, Or.inr ⟨amt, rfl, rfl, ?_, ?_, ?_⟩⟩ <;> simp
+          injection h with h
+          right
+          exact ⟨_, rs, h.symm, all_nonneg_of_not_anyNeg rs hn', by intro _; omega, by intro; omega, rfl, rfl, rfl⟩
   · simp only [hd, if_false] at h
-    cases x with
-    | err =>
-      simp only at h
-      injection h with h; injection h with h1 h2; injection h2 with h2 h3
-      subst h1 h2 h3
-      exact ⟨by simp, Int.le_refl 0, by intro; omega, by intro; rfl, Or.inl ⟨rfl, rfl, Or.inl rfl⟩⟩
-    | ok amt =>
-      simp only at h
-      injection h with h; injection h with h1 h2; injection h2 with h2 h3
-      subst h1 h2 h3
-      refine ⟨by simp, Int.natCast_nonneg _, by intro; omega, by intro; rfl, Or.inr ⟨amt, rfl, rfl, ?_, ?_, ?_⟩⟩ <;> simp [sumL]
+    injection h with h
+    right
+    exact ⟨g, [], h.symm, by simp, by intro; omega, by intro; rfl, by simp [sumL], by simp [sumL], rfl⟩
+
+/-- what one swap-fee trigger does, as cases -/
+theorem sfTrigger_cases (g g' : SfGauge) (d : DistData) (x : Xfer) (sends : List Int) (recv : Int)
+    (h : sfTrigger g d x = .ok (g', sends, recv)) :
+    (∀ r ∈ sends, 0 ≤ r) ∧ 0 ≤ recv ∧ (0 < g.deposit → sumL sends ≤ g.deposit) ∧ (g.deposit ≤ 0 → sends = []) ∧
+    g'.deposit = g.deposit - sumL sends + recv ∧ g'.distributed = g.distributed + sumL sends ∧
+    ((g' = g ∧ recv = 0 ∧ sends = []) ∨ (x = .err ∧ recv = 0 ∧ g'.triggered = g.triggered) ∨
+     (∃ amt : Nat, x = .ok amt ∧ recv = amt ∧ g'.triggered = g.triggered + 1)) := by
+  unfold sfTrigger at h
+  split at h
+  · cases h
+  · injection h with h; injection h with h1 h2; injection h2 with h2 h3
+    subst h1 h2 h3
+    exact ⟨by simp, Int.le_refl 0, by intro _; simp [sumL]; omega, by intro; rfl, by simp [sumL], by simp [sumL], Or.inl ⟨rfl, rfl, rfl⟩⟩
+  · rename_i g1 s1 hdist
+    rcases sfDistribute_cases g d _ hdist with hnone | ⟨g1', s1', heq, hnn, hle, hemp, hd1, hd2, hd3⟩
+    · cases hnone
+    · injection heq with heq; injection heq with e1 e2
+      subst e1 e2
+      cases x with
+      | err =>
+        simp only at h
+        injection h with h; injection h with h1 h2; injection h2 with h2 h3
+        subst h1 h2 h3
+        exact ⟨hnn, Int.le_refl 0, hle, hemp, by omega, hd2, Or.inr (Or.inl ⟨rfl, rfl, hd3⟩)⟩
+      | ok amt =>
+        simp only at h
+        injection h with h; injection h with h1 h2; injection h2 with h2 h3
+        subst h1 h2 h3
+        exact ⟨hnn, Int.natCast_nonneg _, hle, hemp, by simp only; omega, hd2, Or.inr (Or.inr ⟨amt, rfl, rfl, by simp only; omega⟩)⟩
 
 /-- the ledger invariant: every gauge is within its schedule, and the module account covers the sum of all
 undistributed remainders (as a signed sum over gauges, swap-fee gauges and external programmes) -/
 def LInv (l : Ledger) : Prop :=
   (∀ g ∈ l.gauges, GInv g) ∧ remGauges l.gauges + remExts l.exts + remSfs l.sfs ≤ l.bal
 
-theorem sfLeak_false (g g' : SfGauge) (d : DistData) (sends : List Int) (recv : Int)
-    (h : sfTrigger g d .err = .ok (g', sends, recv)) (hk : sfLeak g d .err = false) : sumL sends = 0 := by
-  unfold sfLeak at hk
-  rw [h] at hk
-  simpa using hk
-
-theorem stepB_inv (l l' : Ledger) (o : BOp) (h : stepB l o = .ok l') (hl : LInv l) (hk : bopLeaks l o = false) : LInv l' := by
+theorem stepB_inv (l l' : Ledger) (o : BOp) (h : stepB l o = .ok l') (hl : LInv l) : LInv l' := by
   obtain ⟨hg, hb⟩ := hl
   cases o with
   | sfTrigger i d x =>
@@ -411,16 +408,9 @@ theorem stepB_inv (l l' : Ledger) (o : BOp) (h : stepB l o = .ok l') (hl : LInv 
         refine ⟨hg, ?_⟩
         simp only
         rw [remSfs_setAt _ _ _ _ hgi]
-        obtain ⟨hnn, hr0, _, _, hc⟩ := sfTrigger_cases g g' d x sends recv ht
+        obtain ⟨hnn, _, _, _, hd, _, _⟩ := sfTrigger_cases g g' d x sends recv ht
         have hsb := (sendAll_bounds sends hnn l.bal).1
-        rcases hc with ⟨rfl, rfl, hs⟩ | ⟨amt, _, rfl, hd, _, _⟩
-        · rcases hs with rfl | rfl
-          · simp only [sendAll, sumL] at *; omega
-          · have hk' : sfLeak g' d .err = false := by
-              simp only [bopLeaks, hgi] at hk; exact hk
-            have := sfLeak_false g' g' d sends 0 ht hk'
-            omega
-        · omega
+        omega
   | trigger i now d =>
     simp only [stepB] at h
     split at h
@@ -466,7 +456,7 @@ theorem stepB_inv (l l' : Ledger) (o : BOp) (h : stepB l o = .ok l') (hl : LInv 
       simp only
       rw [remExts_setAt _ _ _ _ hx]; simp only; omega
 
-theorem runB_inv (l l' : Ledger) (os : List BOp) (h : runB l os = .ok l') (hl : LInv l) (hk : noLeakB l os = true) : LInv l' := by
+theorem runB_inv (l l' : Ledger) (os : List BOp) (h : runB l os = .ok l') (hl : LInv l) : LInv l' := by
   induction os generalizing l with
   | nil => simp only [runB] at h; injection h with h; subst h; exact hl
   | cons o os ih =>
@@ -474,11 +464,9 @@ theorem runB_inv (l l' : Ledger) (os : List BOp) (h : runB l os = .ok l') (hl : 
     split at h
     · cases h
     · rename_i l1 h1
-      simp only [noLeakB, h1, Bool.and_eq_true, Bool.not_eq_true'] at hk
-      exact ih l1 h (stepB_inv l l1 o h1 hl hk.1) hk.2
+      exact ih l1 h (stepB_inv l l1 o h1 hl)
 
-theorem step_inv (l : Ledger) (o : Op) (hl : LInv l)
-    (hk : (match o with | .block ops => noLeakB l ops | _ => true) = true) : LInv (step l o) := by
+theorem step_inv (l : Ledger) (o : Op) (hl : LInv l) : LInv (step l o) := by
   obtain ⟨hg, hb⟩ := hl
   cases o with
   | createSf =>
@@ -511,15 +499,13 @@ theorem step_inv (l : Ledger) (o : Op) (hl : LInv l)
   | block ops =>
     simp only [step]
     split
-    · rename_i l' h; exact runB_inv l l' ops h ⟨hg, hb⟩ hk
+    · rename_i l' h; exact runB_inv l l' ops h ⟨hg, hb⟩
     · exact ⟨hg, hb⟩
 
-theorem run_inv (l : Ledger) (ops : List Op) (hl : LInv l) (hk : noLeak l ops = true) : LInv (run l ops) := by
+theorem run_inv (l : Ledger) (ops : List Op) (hl : LInv l) : LInv (run l ops) := by
   induction ops generalizing l with
   | nil => exact hl
-  | cons o os ih =>
-    simp only [noLeak, Bool.and_eq_true] at hk
-    exact ih (step l o) (step_inv l o hl hk.1) hk.2
+  | cons o os ih => exact ih (step l o) (step_inv l o hl)
 
 /-- every gauge a user managed to create has at least one epoch and a deposit of at least one unit per epoch -/
 def AccInv (l : Ledger) : Prop := ∀ g ∈ l.gauges, 1 ≤ g.total ∧ (g.total : Int) ≤ g.deposit
